@@ -41,7 +41,7 @@ func TestCheck(t *testing.T) {
 			"after a sink failure the checkpoints stay updated and the unreported nodes stay in the tree until a later finalization reports them (the package documents 'only prune what we successfully sent')",
 			"watchdog 10 s per call, believed only when it repeats",
 		},
-		Mandatory: []string{"config:slots-per-epoch-not-a-power-of-two", "prune:>=2-nodes-then->=3-ops", "prune:sink-failed-partway", "prune:reports-leftovers-of-failed-prune", "prune:nil-sink", "prune:anchor-gap-slot-node", "prune:anchor-block-node", "prune:anchor-missing",
+		Mandatory: []string{"vote:>=65536-changes-between-two-head-computations", "config:slots-per-epoch-not-a-power-of-two", "prune:>=2-nodes-then->=3-ops", "prune:sink-failed-partway", "prune:reports-leftovers-of-failed-prune", "prune:nil-sink", "prune:anchor-gap-slot-node", "prune:anchor-block-node", "prune:anchor-missing",
 			"prune:while-pinned", "prune:unpinned", "prune:non-canonical-nodes", "head:after-prune", "head:inside-finalized-subtree-after-prune", "upd:noop", "upd:applied-justified-only", "upd:refused:finalized-unknown", "upd:refused:justified-unknown",
 			"upd:refused:justified-before-finalized", "upd:refused:trigger-unknown", "upd:refused:trigger-outside-pin", "upd:refused:finalized-conflicting"},
 		SampleTags: []string{"prune:sink-failed-partway", "prune:anchor-gap-slot-node", "prune:anchor-block-node", "prune:nil-sink", "upd:refused:trigger-outside-pin", "prune:reports-leftovers-of-failed-prune"},
